@@ -8,7 +8,7 @@ CONSTANTS
   Small = TRUE
   Avoid = FALSE
   SimK = 0
-  Acts = {"oset", "rebind", "nest"}
+  Acts = {"oset", "rebind", "nest", "ctor", "batch"}
 CONSTRAINT LevelBound
 VIEW view
 INVARIANT Conforms
